@@ -82,7 +82,9 @@ def variants(rng, case, doc, text, op, variables):
         elif r < 0.5:
             v[name] = None
         else:
-            v[name] = rng.choice([1, "x", [1], {"a": 1}, True, 1.5, [[None]], {"unknown_field": {"b": []}}, 2 ** 40])
+            # (payloads are client data: they may contain anything, e.g. text that looks like format codes)
+            v[name] = rng.choice([1, "x", [1], {"a": 1}, True, 1.5, [[None]], {"unknown_field": {"b": []}}, 2 ** 40,
+                                  "50%", "a%20b", "100%s", "%(x)s", {"%d": 1}, ["%"], "{0}", "{name}", "\\u0041", "\u2028"])
         out.append(("variables-mutated", text, op.name, v, False))
     v = dict(variables)
     v["not_a_variable"] = {"x": [1, 2]}
